@@ -112,15 +112,27 @@ Layouts(d) == LET n == NGroups(d) IN
 
 (* ---------------------------------------------------------------- enumeration of small documents *)
 Leaves == {<<TEXT, t, <<>>>> : t \in 1..NTexts} \cup {<<SOFTLINE, 0, <<>>>>, <<SOFTBREAK, 0, <<>>>>, <<HARDLINE, 0, <<>>>>}
-RECURSIVE DocsOf(_), SeqsOf(_, _)
-(* all sequences of at least k documents with exactly n nodes in total *)
-SeqsOf(n, k) == IF n = 0 THEN (IF k <= 0 THEN {<<>>} ELSE {})
-                ELSE UNION { { <<d>> \o s : d \in DocsOf(f), s \in SeqsOf(n - f, IF k > 0 THEN k - 1 ELSE 0) } : f \in 1..n }
-DocsOf(n) == IF n = 1 THEN Leaves
-             ELSE { <<IFBREAK, 0, <<d>>>> : d \in DocsOf(n - 1) } \cup { <<GROUP, 0, <<d>>>> : d \in DocsOf(n - 1) }
-                  \cup { <<NEST, NestBy, <<d>>>> : d \in DocsOf(n - 1) }
-                  \cup { <<CONCAT, 0, s>> : s \in SeqsOf(n - 1, 2) }
-AllDocs == UNION { DocsOf(n) : n \in 1..MaxNodes }
+(* built bottom-up (t[m] = the documents with exactly m nodes) so that nothing is enumerated twice *)
+RECURSIVE SeqsOf(_, _, _)
+(* all sequences of at least k documents with exactly n nodes in total, documents taken from the table t *)
+SeqsOf(t, n, k) == IF n = 0 THEN (IF k <= 0 THEN {<<>>} ELSE {})
+                   ELSE UNION { LET rest == SeqsOf(t, n - f, IF k > 0 THEN k - 1 ELSE 0)
+                                IN { <<d>> \o s : d \in t[f], s \in rest } : f \in 1..n }
+DocsWith(t, n) == IF n = 1 THEN Leaves
+                  ELSE UNION { { <<IFBREAK, 0, <<d>>>> : d \in t[n - 1] }, { <<GROUP, 0, <<d>>>> : d \in t[n - 1] },
+                               { <<NEST, NestBy, <<d>>>> : d \in t[n - 1] }, { <<CONCAT, 0, s>> : s \in SeqsOf(t, n - 1, 2) } }
+(* one constant per level (a constant is evaluated once; arguments of recursive operators are not cached by TLC) *)
+Level(t, n) == IF n > MaxNodes THEN t ELSE Append(t, DocsWith(t, n))
+T1 == Level(<<>>, 1)
+T2 == Level(T1, 2)
+T3 == Level(T2, 3)
+T4 == Level(T3, 4)
+T5 == Level(T4, 5)
+T6 == Level(T5, 6)
+T7 == Level(T6, 7)
+ASSUME MaxNodes \in 1..7
+DocTable == T7
+AllDocs == UNION { DocTable[n] : n \in 1..MaxNodes }
 
 (* ---------------------------------------------------------------- state space *)
 (* root -> one bucket per (width, kind of the top node) -> one row state per (document, width); the two-level
